@@ -2648,9 +2648,19 @@ func getVars(n *node) (vars []*node) {
 func genGlobalVarDecl(nodes []*node, sc *scope) (*node, error) {
 	varNode := &node{kind: varDecl, action: aNop, gen: nop}
 
+	// Only the variables declared here are to be ordered: a dependency on a variable
+	// declared by an earlier evaluation is already initialized.
+	declared := map[*node]bool{}
+	for _, n := range nodes {
+		declared[n] = true
+	}
 	deps := map[*node][]*node{}
 	for _, n := range nodes {
-		deps[n] = getVarDependencies(n, sc)
+		for _, d := range getVarDependencies(n, sc) {
+			if declared[d] {
+				deps[n] = append(deps[n], d)
+			}
+		}
 	}
 
 	// As specified by Go: repeatedly select the earliest variable in declaration
